@@ -31,7 +31,27 @@ type c25MutCfg struct {
 	decType   string   // name of the mutable decimal type
 	confirmed []string // writers confirmed by reading ("Decimal.Neg/d", "Context.Add/d"): must be derived
 	floor     int
-	exc       map[string]string
+	exc       map[string]c25MutExc
+}
+
+type c25MutExc struct {
+	origins []string // accepted descriptions of non-owned origins
+	why     string
+}
+
+func (e c25MutExc) covers(bad []frsLeaf) bool {
+	for _, l := range bad {
+		ok := false
+		for _, o := range e.origins {
+			if o == l.String() {
+				ok = true
+			}
+		}
+		if !ok {
+			return false
+		}
+	}
+	return true
 }
 
 func runC25Mut(c *Ctx, cfg c25MutCfg) {
@@ -103,52 +123,72 @@ func runC25Mut(c *Ctx, cfg c25MutCfg) {
 
 	dyn := frsDynamicMethods(c.P)
 
-	// ---- every write in the module
+	// ---- every decimal write in the module: primitive sinks (calls of the package's writers, direct field
+	// stores into a decimal), closed under forwarding through module functions
+	extW := map[*ssa.Function]map[int]bool{}
+	extWriters := func(g *ssa.Function) map[int]bool {
+		if m, ok := extW[g]; ok {
+			return m
+		}
+		var m map[int]bool
+		if g.Pkg == sp || (g.Origin() != nil && g.Origin().Pkg == sp) {
+			for j := range eng.Writes(g) {
+				if j < len(g.Params) && isDecPtr(g.Params[j].Type()) {
+					if m == nil {
+						m = map[int]bool{}
+					}
+					m[j] = true
+				}
+			}
+		}
+		extW[g] = m
+		return m
+	}
 	type sink struct {
 		fn     *ssa.Function
 		at     ssa.Instruction
 		dest   ssa.Value
 		callee string
 	}
-	var sinks []sink
-	for _, f := range eng.ix.funcs {
-		for _, b := range f.Blocks {
-			for _, in := range b.Instrs {
-				switch x := in.(type) {
-				case *ssa.Store:
-					root := frsStoreRoot(x.Addr)
-					if root == nil {
-						// a store into a local cell: a sink only when the cell is a decimal that is a shallow copy
-						continue
-					}
-					if isDecPtr(root.Type()) {
-						_, first := frsPeelAddr(x.Addr)
-						name := "*"
-						if fa, ok := x.Addr.(*ssa.FieldAddr); ok && first >= 0 {
-							name = frsFieldName(fa.X.Type(), fa.Field)
-						}
-						sinks = append(sinks, sink{f, in, root, "store ." + name})
-					}
-				case ssa.CallInstruction:
-					com := x.Common()
-					callee := com.StaticCallee()
-					if callee == nil {
-						continue
-					}
-					wr := eng.Writes(callee)
-					var js []int
-					for j := range wr {
-						js = append(js, j)
-					}
-					sort.Ints(js)
-					for _, j := range js {
-						if j < len(com.Args) && j < len(callee.Params) && isDecPtr(callee.Params[j].Type()) {
-							sinks = append(sinks, sink{f, in, com.Args[j], maFnName(callee)})
-						}
-					}
+	fsinks, _ := eng.ProtectedSinks(func(f *ssa.Function, in ssa.Instruction) []frsSink {
+		var out []frsSink
+		switch x := in.(type) {
+		case *ssa.Store:
+			root := frsStoreRoot(x.Addr)
+			if root == nil {
+				return nil // into a local cell of the function
+			}
+			if isDecPtr(root.Type()) {
+				_, first := frsPeelAddr(x.Addr)
+				name := "*"
+				if fa, ok := x.Addr.(*ssa.FieldAddr); ok && first >= 0 {
+					name = frsFieldName(fa.X.Type(), fa.Field)
+				}
+				out = append(out, frsSink{f, in, root, "store ." + name})
+			}
+		case ssa.CallInstruction:
+			com := x.Common()
+			callee := com.StaticCallee()
+			if callee == nil {
+				return nil
+			}
+			m := extWriters(callee)
+			var js []int
+			for j := range m {
+				js = append(js, j)
+			}
+			sort.Ints(js)
+			for _, j := range js {
+				if j < len(com.Args) {
+					out = append(out, frsSink{f, in, com.Args[j], maFnName(callee)})
 				}
 			}
 		}
+		return out
+	}, func(f *ssa.Function, p *ssa.Parameter) bool { return !dyn(f) && len(eng.ix.callers[f]) > 0 })
+	var sinks []sink
+	for _, s := range fsinks {
+		sinks = append(sinks, sink{s.fn, s.at, s.dest, s.how})
 	}
 	dump := os.Getenv("VCHK_DUMP") != "" && !c.fixtureMode
 	for _, s := range sinks {
@@ -175,10 +215,6 @@ func runC25Mut(c *Ctx, cfg c25MutCfg) {
 		case len(bad) == 0 && len(shallow) == 0:
 			c.Ok("C25-M1", key, pos, "destination is "+o.Describe())
 		case len(shallow) > 0:
-			if why, ok := cfg.exc[key]; ok && !c.fixtureMode {
-				c.Exc("C25-M1", key, pos, why)
-				continue
-			}
 			c.Bad("C25-M1", key, pos, fmt.Sprintf("%s: %s writes a decimal through %s, and %s: a struct copy of a %s shares the heap part of its coefficient (coefficients above 128 bits) with the original, so the in-place update also changes the decimal it was copied from - a value this function does not own (a stored row, a literal, the caller's operand). Allocate an empty decimal (new(%s)) or copy with Set.",
 				c.P.Rel(pos), fk, s.callee, strings.Join(shallow, "; "), cfg.decType, cfg.decType))
 		default:
@@ -195,8 +231,8 @@ func runC25Mut(c *Ctx, cfg c25MutCfg) {
 				c.Ok("C25-M1", key, pos, fmt.Sprintf("destination is the function's own parameter %s: %s is itself a writer, decided at its %d static call site(s)", strings.Join(ps, ", "), fk, len(eng.ix.callers[s.fn])))
 				continue
 			}
-			if why, ok := cfg.exc[key]; ok && !c.fixtureMode {
-				c.Exc("C25-M1", key, pos, why)
+			if ex, ok := cfg.exc[key]; ok && !c.fixtureMode && ex.covers(bad) {
+				c.Exc("C25-M1", key, pos, ex.why)
 				continue
 			}
 			var ds []string
